@@ -45,4 +45,6 @@ unsigned long long tok_ull(const char *t);
 void dirty_stack(void);
 void launder(void *p);     /* the object escapes: the compiler may not assume its contents across the call */
 #define LIB(expr) do { dirty_stack(); in_lib = 1; expr; in_lib = 0; } while (0)
+/* inside sweeps of 2^32 calls: the 24 KiB fill per call would dominate; the sweep dirties the stack every 65536 calls itself */
+#define LIB_FAST(expr) do { in_lib = 1; expr; in_lib = 0; } while (0)
 #endif
